@@ -388,7 +388,9 @@ def rule_recipe(rng, doc, well_typed=False, cast_p=0.0, maxlen=3, fns=None):
 
 
 CAST_STRS = ["true", "FALSE", "True", "3", " 7 ", "x3", "", "-2", "1_0", "tru", "0", "+5", "1.5", "false ",
-             "fal\u017fe", "TRUE\u2003", "\u00a07", "\u0663", "1\uff13", "\t3", "\x1f5", "tRuE", "1__0", "_1", "\u2003true"]
+             "fal\u017fe", "TRUE\u2003", "\u00a07", "\u0663", "1\uff13", "\t3", "\x1f5", "tRuE", "1__0", "_1", "\u2003true",
+             # strings that float() accepts and int() does not (a str -> int cast leaves them as they are)
+             "inf", "Infinity", "-inf", "1e3", "1E2", "nan", "1e999", "2.0"]
 
 
 def cast_document(rng, depth=3):
@@ -409,7 +411,7 @@ def cast_document(rng, depth=3):
 
 
 def judge(rep, events, recipes, keyf):
-    res = tlc.accept("Trace_Rule", "Trace_Rule.cfg", events)
+    res = tlc.accept("Trace_Rule", "Trace_Rule.cfg", events, env={"VERIF_PROP": rep.pid if rep.pid == "C15" else ""})
     rep.add_tlc(res, "B:Trace_Rule")
     rep.traces += len(events)
     byid = {e["id"]: e for e in events}
@@ -439,7 +441,7 @@ def replay(rep, case):
             b = validate_event(0, [unlit_rule(x) for x in r["base_rules"]], doc)
             base = b
         ev = [validate_event(1, rrs, doc, perm=r.get("perm"), base=base)]
-    res = tlc.accept("Trace_Rule", "Trace_Rule.cfg", ev, shards=1)
+    res = tlc.accept("Trace_Rule", "Trace_Rule.cfg", ev, shards=1, env={"VERIF_PROP": rep.pid if rep.pid == "C15" else ""})
     rep.add_tlc(res, "B:Trace_Rule(replay)")
     rep.traces += 1
     for m in res["mismatches"]:
